@@ -387,20 +387,33 @@ def execute(plan, seed=0):
             res.probe("sim_timeout_not_reached_real_solve")
         v1 = _judge(plan, outcome, cache)
         if v1:
-            # discriminator: the same request with CBC preprocessing off
+            # discriminator: the same request with CBC preprocessing off, and if the mismatch persists, with cut
+            # generation off as well (plain branch and bound). prtpy's own code runs unchanged; only the solver is made
+            # more conservative. An answer that then satisfies the oracle shows that the model prtpy built is right and
+            # the first answer was the solver's own fault.
             noise = {"x_noise": s["x_noise"]} if s.get("x_noise") else {}
-            outcome2 = _call(plan, dict({"mode": "real", "preprocess": 0}, **noise))
+            conservative = dict({"mode": "real", "preprocess": 0}, **noise)
+            outcome2 = _call(plan, conservative)
             res.evaluations += 1
             v2 = _judge(plan, outcome2, cache)
             tr.add("recheck-preprocess-off", first=[c for c, _ in v1], second=[c for c, _ in v2], outcome=canon(outcome2[1]))
+            if v2:
+                conservative = dict(conservative, cuts=0)
+                outcome2 = _call(plan, conservative)
+                res.evaluations += 1
+                v2b = _judge(plan, outcome2, cache)
+                tr.add("recheck-cuts-off", second=[c for c, _ in v2], third=[c for c, _ in v2b], outcome=canon(outcome2[1]))
+                if not v2b:
+                    res.note("solver_fault_natural_needs_cuts_off")
+                v2 = v2b
             if not v2:
                 res.note("solver_fault_natural")
                 res.note("solver_fault_natural:" + v1[0][0])
             else:
                 for clause, det in v2:
-                    res.violate(clause, with_preprocessing_off=True, first_attempt=[c for c, _ in v1], **det)
+                    res.violate(clause, with_conservative_solver=True, first_attempt=[c for c, _ in v1], **det)
                 if any(c == "not-optimal" for c, _ in v2) and _weights_kind(plan) == "uniform":
-                    o3 = _call(plan, dict({"mode": "real", "preprocess": 0}, **noise), weights=None)
+                    o3 = _call(plan, conservative, weights=None)
                     res.evaluations += 1
                     p3 = dict(plan, weights=None)
                     v3 = _judge(p3, o3, {})
